@@ -46,6 +46,27 @@ def run_check(copy, prop, tier, out):
     return p.returncode, viol, keys, round(time.time() - t0, 1), p.stdout[-600:]
 
 
+def check_replays(copy, prop, out, limit=3):
+    """Every replay file the check wrote must (a) reproduce the violation against the changed copy and (b) hold - not
+    crash - against the unchanged /repo.  Returns a summary dict."""
+    files = sorted(glob.glob(os.path.join(out, 'replays', prop, '*.json')))[:limit]
+    res = dict(files=len(files), reproduced=0, held_on_unchanged=0, broken=[])
+    for f in files:
+        for target, want in ((copy, 1), (REPO, 0)):
+            env = dict(os.environ, VERIF_REPO=target, VERIF_OUT_DIR=out, PYTHONDONTWRITEBYTECODE='1')
+            try:
+                p = subprocess.run([os.path.join(HERE, 'check'), prop, '--replay', f], cwd=HERE, capture_output=True, text=True,
+                                   env=env, timeout=900)
+                rc, tail = p.returncode, (p.stdout + p.stderr)[-300:]
+            except subprocess.TimeoutExpired:
+                rc, tail = 'timeout', ''
+            if rc == want:
+                res['reproduced' if want == 1 else 'held_on_unchanged'] += 1
+            else:
+                res['broken'].append(dict(file=os.path.basename(f), against='changed' if want == 1 else 'unchanged', rc=rc, tail=tail))
+    return res
+
+
 def one(mut, tier):
     scratch = tempfile.mkdtemp(prefix='pvmut-')
     copy = os.path.join(scratch, 'repo')
@@ -76,6 +97,8 @@ def one(mut, tier):
             res[prop] = dict(rc=rc, violation_for=viol, keys=keys, secs=secs)
             if rc not in (0, 1):
                 res[prop]['tail'] = tail
+            if rc == 1 and not mut.get('benign') and os.environ.get('PV_SELFTEST_REPLAYS', '1') != '0':
+                res[prop]['replays'] = check_replays(copy, prop, out)
         if mut.get('benign'):
             # a behaviour-preserving change: every check must stay silent (exit 0)
             loud = {p: v for p, v in res.items() if v['rc'] != 0}
@@ -151,8 +174,11 @@ def main(argv):
                 r = dict(id=futs[f]['id'], prop=futs[f]['prop'], verdict='runner-error', detail=repr(e)[:300])
             results.append(r)
             c = r.get('checks', {}).get(r['prop'], {})
-            print('%-34s %-4s %-22s %s %s' % (r['id'], r['prop'], r['verdict'], ','.join(c.get('keys', [])) or r.get('detail', ''),
-                                              ('%ss' % c.get('secs')) if c else ''), flush=True)
+            rp = c.get('replays')
+            rps = '' if not rp else ' replays %d/%d/%d%s' % (rp['files'], rp['reproduced'], rp['held_on_unchanged'],
+                                                              ' BROKEN-REPLAY' if rp['broken'] else '')
+            print('%-34s %-4s %-22s %s %s%s' % (r['id'], r['prop'], r['verdict'], ','.join(c.get('keys', [])) or r.get('detail', ''),
+                                                ('%ss' % c.get('secs')) if c else '', rps), flush=True)
     results.sort(key=lambda r: r['id'])
     name = 'selftest_benign.json' if use_benign else 'selftest_seeded.json' if use_seeded else 'selftest_results.json'
     for r in results:
